@@ -603,6 +603,7 @@ def close(x, q, tol=TOL):
 
 
 def cmp_list(xs, qs, what, exact=True):
+    """exact=True: rationals in the exact regime must be reproduced bit for bit, the others to 1e-12"""
     if len(xs) != len(qs):
         return f'{what}: lengths differ (implementation {len(xs)}, model {len(qs)})'
     for i, (x, q) in enumerate(zip(xs, qs)):
@@ -639,10 +640,12 @@ def compare(c, impl, model):
                 return 'internal: append(copy) must be the last call of a sequence' if k != len(impl['steps']) - 1 else None
             if (a['err'] or None) != b['err']:
                 return f'step {k} ({name}): exception {a["err"]} vs model {b["err"]}'
-            m = cmp_list(a['w'], b['w'], f'step {k} ({name}) wave') or cmp_list(a['v'], b['v'], f'step {k} ({name}) value')
+            pre = model['steps'][k - 1] if k else {'w': [F(x) for x in c['w']], 'v': [F(x) for x in c['v']]}
+            ex = name != 'resample' or interp_exact(pre['w'], pre['v'])
+            m = cmp_list(a['w'], b['w'], f'step {k} ({name}) wave', ex) or cmp_list(a['v'], b['v'], f'step {k} ({name}) value', ex)
             if m:
                 return m
-            if len(b['w']) != len(b['v']) or not all(exact_q(q) for q in b['w'] + b['v']):
+            if not ex or len(b['w']) != len(b['v']) or not all(exact_q(q) for q in b['w'] + b['v']):
                 return None       # ill-formed or outside the exact regime from here on: later calls are not compared
         return None
     if op == 'integrate':
@@ -653,11 +656,12 @@ def compare(c, impl, model):
     if op == 'bin':
         if model['bins'] is None:
             return None if not all(math.isfinite(x) for x in impl['bins']) else 'model: zero bin sum (non-finite result), implementation finite'
-        return cmp_list(impl['bins'], model['bins'], 'bins', exact=(c['rule'] == 'trapz' and not c['pp']))
+        return cmp_list(impl['bins'], model['bins'], 'bins',
+                        exact=(c['rule'] == 'trapz' and not c['pp'] and interp_exact([F(x) for x in c['w']], [F(x) for x in c['v']])))
     if op == 'ends':
         return None if impl['ij'] == model['ij'] else f'ends: implementation {impl["ij"]}, model {model["ij"]}'
     if op == 'sample':
-        return cmp_list(impl['f'], model['f'], 'sample')
+        return cmp_list(impl['f'], model['f'], 'sample', interp_exact([F(x) for x in c['w']], [F(x) for x in c['v']]))
     return None
 
 
@@ -700,6 +704,20 @@ def fx(xs):
     return [F(x) for x in xs]
 
 
+def borderline(ratios, tol):
+    """some v/max is so close to the tolerance (without being equal) that float rounding decides the comparison"""
+    return any(r != tol and abs(r - tol) <= F(1, 10 ** 12) * (1 + abs(tol)) for r in ratios)
+
+
+def pow2(q):
+    return q > 0 and q.numerator & (q.numerator - 1) == 0 and q.denominator & (q.denominator - 1) == 0
+
+
+def interp_exact(w, v):
+    """np.interp reproduces the rational interpolant bit for bit: power-of-two gaps, small dyadic values"""
+    return all(pow2(b - a) for a, b in zip(w, w[1:])) and all(exact_q(x) for x in list(w) + list(v))
+
+
 def oracle_seq(c, impl):
     pw, pv = fx(fl(c['w'])), fx(fl(c['v']))
     for k, (o, st) in enumerate(zip(c['ops'], impl['steps'])):
@@ -739,8 +757,11 @@ def oracle_seq(c, impl):
                 exp = (pw, pv)
             else:
                 m = max(pv)
-                idx = [i for i, y in enumerate(pv) if y / m > tol]
-                exp = (pw[idx[0]:idx[-1] + 1], pv[idx[0]:idx[-1] + 1]) if idx and m > 0 else None
+                if m > 0 and borderline([y / m for y in pv], tol):
+                    exp = (w, v)      # a ratio within rounding of the tolerance: the float comparison may go either way
+                else:
+                    idx = [i for i, y in enumerate(pv) if y / m > tol]
+                    exp = (pw[idx[0]:idx[-1] + 1], pv[idx[0]:idx[-1] + 1]) if idx and m > 0 else None
             if exp is None:
                 return f'{tag}: accepted although no sample is above the tolerance'
             if (w, v) != exp:
@@ -766,7 +787,8 @@ def oracle_seq(c, impl):
                     return f'{tag}: padded grid does not stop at the requested end {float(e1)}'
                 if e0 >= pw[0] and i != 0 or e1 <= pw[-1] and i + n != len(w):
                     return f'{tag}: samples added on a side that needed none'
-                if any(b - a > dw for a, b in zip(w[:i + 1], w[1:i + 1])) or any(b - a > dw for a, b in zip(w[i + n - 1:], w[i + n:])):
+                dwt = dw * (1 + F(1, 10 ** 12))
+                if any(b - a > dwt for a, b in zip(w[:i + 1], w[1:i + 1])) or any(b - a > dwt for a, b in zip(w[i + n - 1:], w[i + n:])):
                     return f'{tag}: padded samples are further apart than the sampling {float(dw)}'
                 if any(y != v0 for y in v[:i]) or any(y != v1 for y in v[i + n:]):
                     return f'{tag}: padded values are not the requested constants'
@@ -885,6 +907,8 @@ def oracle(c, impl):
         tol = F(float(F(c['tol'])))
         if not v or max(v) <= 0:
             return None if 'err' in impl else 'ends accepted a spectrum without a positive value'
+        if borderline([y / max(v) for y in v], tol):
+            return None
         idx = [i for i, y in enumerate(v) if y / max(v) > tol]
         if not idx:
             return None if 'err' in impl else 'ends accepted although nothing is above the tolerance'
